@@ -14,14 +14,18 @@ EXPLANATION = (
     "descendants and skip empty boxes; Group and Use are each held to the same obligations. R08.4 Bezier extrema: the quadratic root per axis is "
     "(p0 - p1)/(p0 - 2 p1 + p2), kept iff 0 < t < 1, the candidate list contains both end points and the curve point at the "
     "root; for the cubic, denom/tau/delta and both roots are checked against the derivative A t^2 + B t + C through the "
-    "identities A = -denom, B = 2 tau, delta = tau^2 - A C, and the near-linear fallback against -C/B. Not decided: "
+    "identities A = -denom, B = 2 tau, delta = tau^2 - A C, and the near-linear fallback against -C/B. "
+    "R08.5 arc candidates: the arc box enumerates the ellipse's axis extrema as angle_inv + k*quarter-turn filtered by the sweep "
+    "interval; since the start angle lies in (-pi, pi], |sweep| <= 2 pi and angle_inv in (-pi/2, pi/2), k must cover at least "
+    "[-2, 4] or an extremum inside the sweep is never tested (the box then excludes part of the arc). "
+    "Not decided: "
     "containment and tightness for arcs (candidate angles are value dependent) and cubics near the 1e-8 threshold."
 )
 ASSUMPTIONS = [
     "Stroke widths are non-negative (lo - d <= hi + d needs d >= 0).",
     "Arc extremum angles (atan based enumeration over k) are numeric and not decided; only the ordered-box rule covers Arc.bbox.",
 ]
-FLOORS = {"R08.1": 9, "R08.2": 4, "R08.3": 4, "R08.4": 12}
+FLOORS = {"R08.1": 9, "R08.2": 4, "R08.3": 4, "R08.4": 12, "R08.5": 4}
 
 BBOXES = ["PathSegment.bbox", "Move.bbox", "QuadraticBezier.bbox", "CubicBezier.bbox", "Arc.bbox", "Shape.bbox", "Subpath.bbox", "Group.union_bbox", "Use.union_bbox"]
 
